@@ -241,7 +241,8 @@ Print Assumptions C09_old_shift_order_odd_refuted.
    before the plane type (TypeError for ptype none) before the output shape (ValueError) before the scratch size
    (ValueError); otherwise the call succeeds and the result has the requested shape, the reported wavelength, output
    pixel scale du/oversample, the focal length of the input, the opposite plane type, and exactly one untilted field at
-   offset (0,0) holding the whole N0 x N1 grid; a scratch buffer comes back iff one was supplied *)
+   offset (0,0) of exactly the shape of the result (fix 1b12b57: the part of the N0 x N1 grid the result covers); a
+   scratch buffer comes back iff one was supplied *)
 Theorem C09_propagate_fft_verdict :
   forall (S : Scalar), is_ring S -> forall (sq : Qc -> S) (N0 N1 : Z) (w : Fft.wavefront S) (du : Qc * Qc)
          (shape : option (Z * Z)) (os : Z) (scratch : option (arr S)),
@@ -263,11 +264,29 @@ Theorem C09_propagate_fft_verdict :
       Fft.wpix out = (fst du / zq os, snd du / zq os)%Qc /\
       Fft.wz out = Fft.wz w /\
       Fft.propagate_ptype (Fft.wpt w) = Ok (Fft.wpt out) /\
-      Fft.wdata out = [mkField (D2 F) 0 0 []] /\ nr F = N0 /\ nc F = N1 /\
+      Fft.wdata out = [mkField (D2 F) 0 0 []] /\
+      nr F = fst (match shape with None => (N0, N1) | Some s => (fst s * os, snd s * os) end) /\
+      nc F = snd (match shape with None => (N0, N1) | Some s => (fst s * os, snd s * os) end) /\
       (scratch = None <-> sc = None)
   end.
 Proof. exact propagate_fft_verdict. Qed.
 Print Assumptions C09_propagate_fft_verdict.
+
+(* hence a result is itself a well-formed input: its field is an array lying inside the result's own shape, without
+   tilt - the hypotheses of C09_propagate_fft_samples / C09_scratch_transparent hold of it, so on the second leg of a relay
+   the FFT with scratch, the FFT without scratch and the DFT see the same field (before fix 1b12b57 the stored field was
+   the whole grid and [inside_shape] failed: finding C09-relay-field-exceeds-shape) *)
+Theorem C09_output_is_wellformed_input :
+  forall (S : Scalar), is_ring S -> forall (sq : Qc -> S) (N0 N1 : Z) (w : Fft.wavefront S) du shape os scratch out sc,
+  0 < N0 -> 0 < N1 -> (forall f, In f (Fft.wdata w) -> fgood S f) ->
+  (scratch = None -> 0 < fst (Fft.wshape w) /\ 0 < snd (Fft.wshape w)) ->
+  0 < fst (match shape with None => (N0, N1) | Some s => (fst s * os, snd s * os) end) ->
+  0 < snd (match shape with None => (N0, N1) | Some s => (fst s * os, snd s * os) end) ->
+  propagate_fft_N sq N0 N1 w du shape os scratch = Ok (out, sc) ->
+  (forall f, In f (Fft.wdata out) -> fgood S f) /\ Fft.has_tilt out = false /\
+  0 < fst (Fft.wshape out) /\ 0 < snd (Fft.wshape out) /\ inside_shape S out.
+Proof. exact propagate_fft_output_wellformed. Qed.
+Print Assumptions C09_output_is_wellformed_input.
 
 (* frame statement for the scratch buffer: after an accepted call it keeps its shape, holds the input plane (the sum of
    the zero-extended fields, centred at floor(N/2)) in its N0 x N1 corner whatever it held before, and is untouched
